@@ -4,18 +4,31 @@ use std::sync::atomic::{AtomicUsize, Ordering};
 use crate::verif::atomic::{AtomicUsize, Ordering};
 use std::time::Duration;
 
+const NANOS_PER_MILLI: u128 = 1_000_000;
+
 // atomic duration in milli seconds
+//
+// `None` is stored as 0. `Some(d)` is rounded *up* to whole milliseconds and
+// stored as at least 1, so that a timeout never expires before `d` has elapsed
+// and a `Some(_)` is never read back as `None` (which means wait forever);
+// `Some(0)` therefore times out after the shortest interval that can be stored
 #[derive(Debug)]
 pub struct AtomicDuration(AtomicUsize);
 
+#[inline]
+fn to_millis(dur: Option<Duration>) -> usize {
+    match dur {
+        None => 0,
+        Some(d) => {
+            let ms = d.as_nanos().div_ceil(NANOS_PER_MILLI);
+            usize::try_from(ms).unwrap_or(usize::MAX).max(1)
+        }
+    }
+}
+
 impl AtomicDuration {
     pub fn new(dur: Option<Duration>) -> Self {
-        let dur = match dur {
-            None => 0,
-            Some(d) => d.as_millis() as usize,
-        };
-
-        AtomicDuration(AtomicUsize::new(dur))
+        AtomicDuration(AtomicUsize::new(to_millis(dur)))
     }
 
     #[inline]
@@ -29,12 +42,7 @@ impl AtomicDuration {
 
     #[inline]
     pub fn store(&self, dur: Option<Duration>) {
-        let timeout = match dur {
-            None => 0,
-            Some(d) => d.as_millis() as usize,
-        };
-
-        self.0.store(timeout, Ordering::Relaxed);
+        self.0.store(to_millis(dur), Ordering::Relaxed);
     }
 
     #[inline]
